@@ -497,6 +497,18 @@ func main() {
 			runXtplCase(NewRng(seed, uint64(i)), out, os.Args[4], i)
 		}
 		out.close()
+	case "fs": // <seed> <n> <outdir>
+		seed, _ := strconv.ParseUint(os.Args[2], 10, 64)
+		n, _ := strconv.Atoi(os.Args[3])
+		out := openOut(os.Args[4])
+		for i := 0; i < n; i++ {
+			genFsCase(NewRng(seed, uint64(i)), out)
+		}
+		out.close()
+	case "fuzz": // <seed> <n> <outdir>
+		seed, _ := strconv.ParseUint(os.Args[2], 10, 64)
+		n, _ := strconv.Atoi(os.Args[3])
+		runFuzz(seed, n, os.Args[4])
 	case "plain": // <seed> <n> <outdir>
 		seed, _ := strconv.ParseUint(os.Args[2], 10, 64)
 		n, _ := strconv.Atoi(os.Args[3])
